@@ -326,6 +326,62 @@ func init() {
 			return obs
 		}})
 
+	register(&Rule{ID: "TRO.target-is-lisp-function", Floor: 1,
+		Doc: "every call of CallStack.TerminalFID — the recognition of a tail call, whose answer makes the caller unwind to an earlier frame of the same function and re-invoke it THERE — is reachable only over an edge entailing that the callee is not a builtin (`fun.Builtin() == nil`): call() gives a lisp function its own package and scope wherever it is re-invoked, a builtin runs in the package and environment current at its invocation, so a builtin re-invoked at an outer frame (funcall / apply handed a SYMBOL in tail position of a function reached through funcall) resolves the symbol in the outer caller's package and the program's value depends on whether elimination happened",
+		Run: func(c *Ctx) []Obligation {
+			const rid = "TRO.target-is-lisp-function"
+			tf := c.LookupMethod("lisp.CallStack.TerminalFID")
+			bm := c.LookupMethod("lisp.LVal.Builtin")
+			if tf == nil || bm == nil {
+				return []Obligation{anchorMissing(rid, "CallStack.TerminalFID / LVal.Builtin")}
+			}
+			sites, _ := c.CallsTo(nil, tf)
+			var obs []Obligation
+			for _, s := range sites {
+				info := s.Unit.Pkg.TypesInfo
+				fc := c.cfgOf(s.Unit, s.Lit)
+				loc, ok := fc.Locate(s.Call)
+				if !ok {
+					obs = append(obs, mkOb(c, rid, s.Unit, "call TerminalFID", s.Call, Undecided, "not locatable", false))
+					continue
+				}
+				notBuiltin := fc.edgesImplying(func(a LitAtom) bool {
+					be, isBin := ast.Unparen(a.E).(*ast.BinaryExpr)
+					if !isBin || (be.Op != token.EQL && be.Op != token.NEQ) {
+						return false
+					}
+					var side ast.Expr
+					if isNilIdent(info, be.Y) {
+						side = be.X
+					} else if isNilIdent(info, be.X) {
+						side = be.Y
+					}
+					if side == nil {
+						return false
+					}
+					ce, isCall := ast.Unparen(side).(*ast.CallExpr)
+					if !isCall || originOf(Callee(info, ce)) != bm {
+						// a local defined once as X.Builtin()
+						d := soleDef(info, s.Unit.Decl.Body, side)
+						if d == nil {
+							return false
+						}
+						ce, isCall = ast.Unparen(d).(*ast.CallExpr)
+						if !isCall || originOf(Callee(info, ce)) != bm {
+							return false
+						}
+					}
+					return (be.Op == token.EQL) == a.Positive
+				})
+				if len(notBuiltin) > 0 && !fc.reachableAvoiding(loc.B, notBuiltin) {
+					obs = append(obs, mkOb(c, rid, s.Unit, "call TerminalFID", s.Call, Proved, "reachable only through the `Builtin() == nil` edge: only lisp functions are tail-call targets", true))
+				} else {
+					obs = append(obs, mkOb(c, rid, s.Unit, "call TerminalFID", s.Call, Violated, "a builtin can be recognised as the target of a tail call and re-invoked at an outer frame, in the outer caller's package: (in-package 'a) (defun helper (x) (list 'a-helper x)) (defun f (x) (funcall 'helper x)) (in-package 'user) (defun helper (x) (list 'user-helper x)) (funcall 'a:f 1) answers '('user-helper 1) with elimination and '('a-helper 1) without", true))
+				}
+			}
+			return obs
+		}})
+
 	register(&Rule{ID: "TRO.mark-consumed", Floor: 2,
 		Doc: "in the two call loops a finished tail-recursion mark re-enters the loop only after CheckTailCall and checkLimits were called and their errors returned",
 		Run: func(c *Ctx) []Obligation {
